@@ -1,5 +1,7 @@
 //! vh — conformance harness binding the TLA+ specification in /verif/spec to the real engine.
 mod astjson;
+mod conv;
+mod describe;
 mod eval;
 mod valjson;
 mod lex;
@@ -28,6 +30,11 @@ fn main() {
         "builtins-record" => eval::builtins_record(rest),
         "literal-record" => eval::literal_record(rest),
         "exec-one" => eval::exec_one(rest),
+        "conv-record" => conv::record(rest),
+        "conv-replay" => conv::replay(rest),
+        "describe-child" => describe::child(rest),
+        "describe-replay" => describe::replay(rest),
+        "describe-record" => describe::record(rest),
         "eval-replay" => eval::eval_replay(rest),
         "eval-record" => eval::eval_record(rest),
         "render-replay" => parse::render_replay(rest),
